@@ -370,18 +370,36 @@ def run_shard(ctx):
     ctx.hypothesis_stage("layer1-any-structure", cases(False), make_body(False), 1400 if quick else 1400)
     ctx.hypothesis_stage("layers123-amino-acid", cases(True), make_body(True), 500 if quick else 500)
 
-    # the corpus files themselves (incl. the F8 witness), a few motions each
-    if ctx.shard < 6:
-        names = ["1FTJ-Chain-A", "1HPX", "3SGB", "4DFR", "sample-issue-140", "conf-model-missing-atoms"]
-        name = names[ctx.shard]
-        text = gen.corpus_text(name)
-        items = [{"pdb": text, "rot": r, "trans": list(t), "layers23": False}
-                 for r, t in ((0, (100123, -250500, 7001)), (5, (1, 0, -1)), (17, (-2510 * 30, 2510 * 3, 0)))]
+    # buried hosts (whole reference proteins with threaded clusters): only there the backbone-reorganisation term and
+    # the Coulomb terms are switched on, so only there a frame dependence of those routines can show
+    @st.composite
+    def buried_cases(draw):
+        s = draw(gen.buried_structures(with_hetero=False))
+        rot_i, trans, kind = draw(motion_strategy(pdbio.bbox(s.entries)))
+        return s, rot_i, trans, kind
 
-        def one(c):
-            v, info = check_case(c)
-            info["sample"] = {"structure": "corpus " + name, "rotation": pdbio.ROTATIONS[c["rot"]],
-                              "translation_mA": c["trans"]}
-            ctx.account(c, v, info)
-        ctx.loop_stage("corpus-files", items, one)
+    def buried_body(t):
+        s, rot_i, trans, kind = t
+        case = {"pdb": s.text, "rot": rot_i, "trans": list(trans), "layers23": False}
+        v, info = check_case(case)
+        info["labels"] = info.get("labels", []) + ["buried-host", "trans:" + kind, "rot:%d" % rot_i]
+        info["sample"] = {"structure": s.summary(), "rotation": pdbio.ROTATIONS[rot_i], "translation_mA": trans,
+                          "layers": "1 (buried host)"}
+        ctx.account(case, v, info)
+
+    ctx.hypothesis_stage("layer1-buried-hosts", buried_cases(), buried_body, 96 if quick else 1600)
+
+    # the corpus files themselves (incl. the F8 witness) in all 24 orientations
+    names = ["1FTJ-Chain-A", "1HPX", "3SGB", "4DFR", "sample-issue-140", "conf-model-missing-atoms"]
+    shifts = [(100123, -250500, 7001), (1, 0, -1), (-2510 * 30, 2510 * 3, 0), (0, 0, 0)]
+    combos = [(n, r) for n in names for r in range(24)]
+    mine = [combos[i] for i in ctx.my_slice(len(combos))]
+
+    def one(t):
+        name, r = t
+        c = {"pdb": gen.corpus_text(name), "rot": r, "trans": list(shifts[r % 4]), "layers23": False}
+        v, info = check_case(c)
+        info["sample"] = {"structure": "corpus " + name, "rotation": pdbio.ROTATIONS[r], "translation_mA": c["trans"]}
+        ctx.account(c, v, info)
+    ctx.loop_stage("corpus-files-24-orientations", mine, one, exhaustive=False)
     ctx.notes["max_raw_dpka_between_frames_when_program_builds_hydrogens"] = worst[0]
